@@ -38,6 +38,11 @@ CHECKS = {
    text="Seeded generator of terminating sequential programs with yield atoms in every expression position, reached through every call kind the property lists (direct, pointer/value/promoted method, method value/expression, interface, function value, generic function/method, other package, go:linkname, deferred call, chains); each program is built in direct form (atoms are plain functions) and resumable form (atoms may suspend) by the tree's compiler, the resumable build is run under the all-default tape (no suspension) and under seeded suspension tapes in the simulated event loop, and printed trace, atom occurrence sequence and termination must be identical: out(D)==out(R0)==out(Rs).",
    note="Trusted: the generator's subset rules (Appendix C), the simulator. Metamorphic oracle: GopherJS against itself, so a defect that is identical in all three builds is not seen here. Known evaluation-order shapes F6a/F6b are not generated in clean mode (7/8 of programs) and are attributed by a syntactic trigger predicate in the rest.",
    technique="deterministic simulation (seeded suspension schedules of generated programs) with a metamorphic direct-vs-resumable oracle"),
+ "C08": dict(
+   category="exploration", design_ref="DESIGN.md §4 C08",
+   text="Concurrency facet: generated scenario functions mixing nested defers, recover at different depths (direct, indirect, deferred function itself), re-panic, replaced panics, named results modified by deferred closures, runtime.Goexit (also below frames with deferred calls), panics with int/string/error/run-time-error values and yield atoms everywhere (including inside deferred functions) run each in its own goroutine, one after the other (S) and all concurrently (M), under seeded suspension tapes in the simulated event loop; the natively built program is the reference: native(S)==gopherjs(S, any tape) and every scenario's log in gopherjs(M, any tape) equals its native log. Which operand values raise which run-time error is a pure function of the program and is not decided.",
+   note="Trusted: host Go toolchain as reference, generator subset rules (Appendix C), simulator. A native-vs-GopherJS difference whose minimised program contains no defer/panic/recover/Goexit construct is counted as out-of-scope, not raised.",
+   technique="deterministic simulation (seeded interleavings of goroutines suspended inside panics and deferred calls) with the native toolchain as reference model"),
 }
 
 def main():
